@@ -113,13 +113,42 @@ class C07(GenCheck):
         return case
 
     def gen_cases(self):
-        return [self.make_case(self.rng) for _ in range(500 if self.tier == "quick" else 8000)]
+        cases = [self.make_case(self.rng) for _ in range(500 if self.tier == "quick" else 8000)]
+        # directed, on their own stream: after the usual statements a packet ELEMENT at a run-time offset (`pH[r3 + 8]`) is combined with
+        # another register, the result going to the index register itself or to a third one, and stored in a local variable.  These
+        # cases are decided by the struct oracle only (Gen/Packet.v has no indexed reads)
+        import random
+        rng = random.Random(self.seed + 707)
+        for _ in range(30 if self.tier == "quick" else 400):
+            c = self.make_case(rng)
+            c.pop("reginit", None)
+            c.pop("second", None)
+            c["stmts"] = [s for s in c["stmts"] if s[2][0] != "r"]
+            G = c["G"]
+            letter = rng.choice("BHIQ" if G >= 16 else "BHI")
+            n = dsl.fmt_size(letter)
+            K = rng.choice([k for k in (0, 1, 8, G - n - 7) if 0 <= k <= G - n])
+            I = rng.randint(0, min(7, G - n - K))
+            c["decls"].append(("lq", "local", "Q"))
+            c["values"]["lq"] = 0
+            c["pm"] = {"letter": letter, "K": K, "I": I, "A": rng.choice([0, 1, 7, 0x1000, 2 ** 40 + 3]), "op": rng.choice(["+", "+", "|", "^"]),
+                       "dst": rng.choice([3, 3, 3, 4]), "swap": rng.random() < 0.3}
+            c["packet"] = bytes(rng.randrange(256) for _ in range(G + rng.choice([1, 2, 9]))).hex()
+            cases.append(c)
+        return cases
 
     def stmts(self, case):
         pre = [["set", ["r", "r", int(no)], ["c", v]] for no, v in sorted(case.get("reginit", {}).items())]
         return pre + self.stmts_(case)
 
     def stmts_(self, case):
+        pm = case.get("pm")
+        if pm:
+            elem = ["pm", pm["letter"], 3, pm["K"]]
+            expr = [pm["op"], elem, ["r", "r", 2]] if pm["swap"] else [pm["op"], ["r", "r", 2], elem]
+            return ([["set", ["v", "ran"], ["c", 1]]] + case["stmts"]
+                    + [["set", ["r", "r", 2], ["c", pm["A"]]], ["set", ["r", "r", 3], ["c", pm["I"]]],
+                       ["set", ["r", "r", pm["dst"]], expr], ["set", ["v", "lq"], ["r", "r", pm["dst"]]]])
         sec = case.get("second")
         if sec:
             return ([["set", ["v", "ran"], ["c", 1]]] + case["stmts"][:sec["at"]]
@@ -162,7 +191,7 @@ class C07(GenCheck):
 
     def model_term(self, case):
         o = case.get("_o")
-        if o is None or isinstance(o, Err):
+        if o is None or isinstance(o, Err) or case.get("pm"):
             return None
         sec = case.get("second")
         if sec:
@@ -235,6 +264,11 @@ class C07(GenCheck):
                 pset(tgt, v)
             else:
                 loc[tgt] = wrap(fm[tgt], v)
+        pm = case.get("pm")
+        if pm:
+            el = struct.unpack_from("<" + pm["letter"], pkt, pm["I"] + pm["K"])[0]
+            a = pm["A"]
+            loc["lq"] = {"+": a + el, "|": a | el, "^": a ^ el}[pm["op"]] % (1 << 64)
         return bytes(pkt), loc
 
     def holds(self, case, o):
